@@ -89,6 +89,8 @@ Inductive gev :=
 | ECancel (id : Z) (ok : bool)  (* timer_cancel (id) *)
 | EFire (id now : Z)            (* callback of timer id starts *)
 | EReturn (stat_called attempted : bool)   (* _gids_map_update returns *)
+| EUpdated                      (* gids_update returns *)
+| EOpen                         (* _gids_map_create opens the databases (setgrent) *)
 | EAns (u g : N) (b : bool)
 | EMark (c : nat)               (* scheduler: refresh parked at hook point c (0 T, 1 G, 2 E) *)
 | EStuck.
@@ -122,7 +124,7 @@ Definition do_sighup (s : gt) : gt * list gev :=
   (mkGT (sighup (x_g s)) id (pt_insert (id, x_clock s) act1) (x_batch s) (x_phase s) id
         (x_clock s) (x_w s) (x_hi s) (Some (x_clock s))
         (if failed then S (x_extra s) else x_extra s) (x_loaded s),
-   ev1 ++ [ESet id (x_clock s) 0]).
+   ev1 ++ [ESet id (x_clock s) 0; EUpdated]).
 
 (* the re-arm at the end of _gids_map_update *)
 Definition rearm (g : gstate) (act : list ptimer) (last clock : Z) : Z * list ptimer * Z * list gev :=
@@ -196,7 +198,8 @@ Definition gt_step (v : variant) (s : gt) (l : glabel) : option (gt * list gev) 
           let p := refresh_begin snap (x_clock s / 1000) (w_mtime w) (w_pw w) (w_db w) sched in
           let att := snd (begin_decide snap (w_mtime w)) in
           Some (mkGT (x_g s) (x_tid s) (x_active s) (x_batch s) (PBuilt tm p att w) (x_last s)
-                     (x_clock s) (x_w s) (x_hi s) (x_owed s) (x_extra s) (x_loaded s), [])
+                     (x_clock s) (x_w s) (x_hi s) (x_owed s) (x_extra s) (x_loaded s),
+                if att then [EOpen] else [])
       | _ => None
       end
   | XCommit =>
@@ -257,7 +260,8 @@ Inductive act :=
 | APw (pw : pwfun)                (* the user database replaced *)
 | AMtime (m : option Z)           (* mtime of /etc/group; None = stat() fails *)
 | ASighup
-| AClock (t : Z)
+| AClock (t : Z)                  (* the clock now reads t *)
+| AAdvance (d : Z)                (* the clock moves on by d ms *)
 | ALookups (qs : list (N * N)).
 
 Record hook := mkH { h_t : list act; h_g : list act; h_e : list act; h_sched : list fault }.
@@ -283,6 +287,7 @@ Definition do_act (s : gt) (a : act) : gt * list gev :=
   | AMtime m => do_label s (XEdit (mkW (w_db (x_w s)) (w_pw (x_w s)) m))
   | ASighup => do_label s XSighup
   | AClock t => do_label s (XClock t)
+  | AAdvance d => do_label s (XClock (x_clock s + d))
   | ALookups qs => do_lookups s qs
   end.
 
